@@ -19,6 +19,8 @@ RULE = (
     'tick the ticker must have been re-activated by the loop (it yielded to the other runnable '
     'activities; FIFO order is C02). non-trivial = >= 2 ticks judged; distinct = trace'
 )
+RULE = RULE + (' Further: tickers iterated in pieces by several (or nested) simulations, negative and exact integer clocks, exact Decimal / Fraction time, negative periods the clock absorbs.')
+
 LEVEL_TEXT = (
     'Exploration by runtime monitoring: tick times, yielded values and exceptions of the real '
     'iterators are compared with an arithmetic model for every generated body-duration '
